@@ -126,6 +126,8 @@ pub struct View {
     /// second candidate (block ending exactly at the address), 0 if none
     pub a2: i64,
     pub off2: i64,
+    /// block that holds the last byte of the view (differs from `a` if the view spans blocks)
+    pub ae: i64,
     pub len: usize,
     pub cap: usize,
     pub asz: usize,
@@ -178,17 +180,29 @@ impl Machine {
         }
     }
 
+    fn locate_last(&self, addr: usize, len: usize, a: i64) -> i64 {
+        if a <= 0 || len == 0 || len > (1 << 20) {
+            return a;
+        }
+        match la::locate(addr + len - 1) {
+            Some(l) => l.id as i64,
+            None => 0,
+        }
+    }
+
     pub fn view(&self, id: usize) -> Option<View> {
         match self.hs.get(id)?.as_ref()? {
             H::B(b) => {
                 let (a, off, asz) = self.locate(b.as_ptr() as usize, b.len());
                 let (a2, off2) = self.locate_alt(b.as_ptr() as usize, a);
-                Some(View { ty: 'B', a, off, a2, off2, len: b.len(), cap: b.len(), asz, uniq: b.is_unique() })
+                let ae = self.locate_last(b.as_ptr() as usize, b.len(), a);
+                Some(View { ty: 'B', a, off, a2, off2, ae, len: b.len(), cap: b.len(), asz, uniq: b.is_unique() })
             }
             H::M(m) => {
                 let (a, off, asz) = self.locate(m.as_ptr() as usize, m.len());
                 let (a2, off2) = self.locate_alt(m.as_ptr() as usize, a);
-                Some(View { ty: 'M', a, off, a2, off2, len: m.len(), cap: m.capacity(), asz, uniq: false })
+                let ae = self.locate_last(m.as_ptr() as usize, m.len(), a);
+                Some(View { ty: 'M', a, off, a2, off2, ae, len: m.len(), cap: m.capacity(), asz, uniq: false })
             }
             H::V(v) => {
                 let (a, off, asz) = if v.capacity() == 0 {
@@ -196,7 +210,7 @@ impl Machine {
                 } else {
                     self.locate(v.as_ptr() as usize, v.len())
                 };
-                Some(View { ty: 'V', a, off, a2: 0, off2: 0, len: v.len(), cap: v.capacity(), asz, uniq: false })
+                Some(View { ty: 'V', a, off, a2: 0, off2: 0, ae: a, len: v.len(), cap: v.capacity(), asz, uniq: false })
             }
         }
     }
@@ -273,13 +287,14 @@ impl Machine {
             first = false;
             let _ = write!(
                 s,
-                "{{\"h\":{},\"ty\":\"{}\",\"a\":{},\"off\":{},\"a2\":{},\"off2\":{},\"len\":{},\"cap\":{},\"u\":{},\"d\":",
+                "{{\"h\":{},\"ty\":\"{}\",\"a\":{},\"off\":{},\"a2\":{},\"off2\":{},\"ae\":{},\"len\":{},\"cap\":{},\"u\":{},\"d\":",
                 id,
                 v.ty,
                 v.a,
                 enc(v.off as usize),
                 v.a2,
                 v.off2,
+                v.ae,
                 enc(v.len),
                 enc(v.cap),
                 v.uniq
